@@ -1540,7 +1540,7 @@ func locksCmd(repo string, _ []string) (string, error) {
 	sb.WriteString("\n].\n\n")
 
 	// inventories and write-site scan
-	inv, err := lkInventory(p, []string{"engine", "engineState", "goImporter", "RunnerState", "rulesRunner", "filterParams"})
+	inv, err := lkInventory(p, []string{"engine", "engineState", "goImporter", "RunnerState", "rulesRunner", "filterParams", "RunContext", "Engine"})
 	if err != nil {
 		return "", err
 	}
